@@ -398,16 +398,26 @@ def r5(ctx, retsets):
                 rets = {flow.av_single(o["ret"]) for o in sel}
                 ctx.check(rets == {v}, "C04.R5", "%s[%s %d]" % (loop, label, v), "%s:%d" % (fn.relfile, fn.line),
                           "returns %s (expected %d at once)" % (sorted(rets, key=str) if sel else "nothing: the loop goes on", v), key="C04.R5:%s:neg" % loop)
-        # progress: offset and remaining length advance by the returned count
+        # progress, evaluated: buffer at address 1000, 8 bytes wanted, the first attempt moves 3, the second 2: the attempts must be
+        # (1000, 8), (1003, 5), (1005, 3) - however the position is kept (an offset added to the buffer, a cursor that is advanced)
         calls = [i for i in fn.all_insts() if is_raw(fn, i)]
         ctx.floor("C04.R5", len(calls), 1)
         c = calls[0]
-        ptr = vf.expr(fn, c.args[1])
-        ln = vf.expr(fn, c.args[2])
-        tot = ptr[2] if ptr[0] == "ptradd" else None
-        adv = tot is not None and ln[0] == "bin" and ln[1] == "sub" and ln[2] == ("arg", 2) and ln[3] == tot and ptr[1] == ("arg", 1)
-        loops = [L for L in fn.loops().values() if c.block.id in L]
-        ctx.check(adv and bool(loops), "C04.R5", "%s:advances" % loop, c.loc(), "%s(buf + done, len - done) inside the loop" % raw, key="C04.R5:%s:adv" % loop)
+        seen_args = []
+
+        def classify_p(inst, E, st):
+            if is_raw(fn, inst):
+                n_ = int(st.get("n", "0"))
+                seen_args.append((n_, flow.av_single(E.val(inst.args[1])), flow.av_single(E.val(inst.args[2]))))
+                if n_ >= 2:
+                    return flow.KILL
+                return [(["=n:%d" % (n_ + 1)], {inst.ref: flow.av_in((3, 2)[n_])})]
+            return None
+        es.count_effects(fn, pdb, classify_p, retsets, cell={1: 1000, 2: 8})
+        adv = sorted(set(seen_args)) == [(0, 1000, 8), (1, 1003, 5), (2, 1005, 3)]
+        ctx.check(adv, "C04.R5", "%s:advances" % loop, c.loc(),
+                  "attempts (position, length) for 3 and then 2 bytes moved out of 8 at address 1000: %s (expected 1000/8, 1003/5, 1005/3)" % [a[1:] for a in sorted(set(seen_args))],
+                  key="C04.R5:%s:adv" % loop)
     # the read-until-complete loop ends only on a negative result or when len bytes are in: the built-in transports must therefore
     # never hand it a 0 ("no bytes, no error") - a closed connection is TR_CLOSED, an empty non-blocking read TR_WOULDBLOCK
     TRV = pdb.enum("tr_rtvals")
